@@ -145,7 +145,7 @@ def c15_batch(tier="quick", seed=0):
 
     def run(p):
         try:
-            return ("ok", Context(time_limit=2, memory_limit=10 ** 6).eval(p))
+            return ("ok", Context(memory_limit=10 ** 5).eval(p))      # no time limit: the outcome must not depend on the load of the machine
         except Exception as e:  # noqa
             return ("exc", type(e).__name__)
     base = [run(p) for p in progs]
